@@ -223,6 +223,12 @@ fn check_last_word(sim: &mut Sim, final_: bool) {
             // open in the editor, but this server process has not been told yet
             continue;
         }
+        if doc.dict_tainted {
+            // a disk error was injected while the server read or wrote a dictionary: until this
+            // document is next updated it may be shown without a dictionary that could not be read
+            sim.res.count("last_word_skipped_after_disk_error", 1);
+            continue;
+        }
         let (user, file) = current_words(sim, doc);
         if prop == "C07" && !(user.is_empty() && file.is_empty()) {
             // direct reading of "an added word is no longer reported as misspelt": not even the
@@ -634,6 +640,8 @@ fn check_dict_files(sim: &mut Sim, when: &str) {
             if foreign_involved { "file_dict_name_collision" } else { "case_variant_replaced" }
         } else if !lost_unexplained.is_empty() && when.starts_with("after crash") {
             "lost_by_crash"
+        } else if !lost_unexplained.is_empty() && sim.res.counters.get("fs_error_injected").copied().unwrap_or(0) > 0 {
+            "lost_after_disk_error"
         } else if fragment {
             "word_fragment"
         } else if !lost_unexplained.is_empty() {
@@ -793,7 +801,7 @@ fn check_ignored_hidden(sim: &mut Sim) {
             continue;
         }
         let Some(doc) = sim.client.doc(&uri).cloned() else { continue };
-        if !doc.open || !doc.known_to_server {
+        if !doc.open || !doc.known_to_server || doc.dict_tainted {
             continue;
         }
         // a word of the lint's neighbourhood that was added to a dictionary meanwhile changes what
@@ -910,7 +918,7 @@ fn check_code_actions(sim: &mut Sim, resp: &super::client::Response) {
     use harper_core::linting::Suggestion;
     let uri = resp.params["textDocument"]["uri"].as_str().unwrap_or("").to_string();
     let Some(doc) = sim.client.doc(&uri).cloned() else { return };
-    if !doc.open || !doc.known_to_server {
+    if !doc.open || !doc.known_to_server || doc.dict_tainted {
         return;
     }
     let (line, ch) = (resp.params["range"]["start"]["line"].as_u64().unwrap_or(0) as u32, resp.params["range"]["start"]["character"].as_u64().unwrap_or(0) as u32);
